@@ -201,11 +201,22 @@ class Behavior(_IModel):
         # the local problem collapses to one scalar when the surface is quadratic and nothing
         # else evolves; the decomposition it runs in is built here, once, not per Gauss point
         self.solver = solver
-        self.__eigen = (
-            _spectral.Build(*elastic.Get_sqrt_C_S(), yieldSurface.P)
-            if self.__Is_reducible()
-            else None
-        )
+        self.__eigen_cache: Optional[tuple] = None
+        """(C, decomposition): the decomposition is rebuilt when the elastic stiffness it came from changes"""
+
+    @property
+    def __eigen(self):
+        """Spectral decomposition used by the reduced return (``None`` when it does not apply).
+
+        Built from the elastic stiffness, so it has to follow a change of the elastic parameters."""
+        if not self.__Is_reducible():
+            return None
+        C = self.C
+        cache = self.__eigen_cache
+        if cache is None or not np.array_equal(cache[0], C):
+            cache = (C, _spectral.Build(*self.__elastic.Get_sqrt_C_S(), self.__yield.P))
+            self.__eigen_cache = cache
+        return cache[1]
 
     def __Is_reducible(self) -> bool:
         """Whether the spectral return applies: quadratic surface, homogeneous C, nothing else."""
